@@ -225,7 +225,7 @@ def tree_digest():
 
 
 def write_replay(prop, prof_name, props, case, sig, message, digest):
-    d = os.path.join(VERIF, "replays", prop)
+    d = os.path.join(os.environ.get("JV_REPLAY_DIR") or os.path.join(VERIF, "replays"), prop)
     os.makedirs(d, exist_ok=True)
     sh = hashlib.sha256(json.dumps(sig).encode()).hexdigest()[:10]
     seed_tag = hashlib.sha256(str(case["seed"]).encode()).hexdigest()[:8]
@@ -438,7 +438,7 @@ def write_evidence(prop, tier, verif_seed, spec, props, results, wall, violation
         },
         "assumptions": components.ASSUMPTIONS,
     }
-    d = os.path.join(VERIF, "evidence")
+    d = os.environ.get("JV_EVIDENCE_DIR") or os.path.join(VERIF, "evidence")
     os.makedirs(d, exist_ok=True)
     with open(os.path.join(d, f"{prop}.json"), "w") as f:
         json.dump(ev, f, indent=1, default=str)
